@@ -458,10 +458,22 @@ func planHash(c Case) uint64 {
 }
 
 func runCase(c Case) []ev.Violation {
+	return judgeWith(c, "", func(stream []byte) translation { return translate(stream, c.Reader, c.EOFWithData) })
+}
+
+// judgeWith renders the case, obtains the translation through get (directly from the translator, or
+// through the running proxy) and judges it. via prefixes signatures and evidence keys.
+func judgeWith(c Case, via string, get func(stream []byte) translation) []ev.Violation {
 	var vs []ev.Violation
 	seen := map[string]bool{}
 	cb := brief(c)
+	if via != "" {
+		cb = via + " " + cb
+	}
 	bad := func(sig, f string, a ...any) {
+		if via != "" {
+			sig = via + "/" + sig
+		}
 		if seen[sig] {
 			return
 		}
@@ -483,10 +495,10 @@ func runCase(c Case) []ev.Violation {
 		}
 	}
 	if nt {
-		rec.NT(fmt.Sprintf("%s|%x", skeleton(types), planHash(c)))
+		rec.NT(fmt.Sprintf("%s%s|%x", via, skeleton(types), planHash(c)))
 	}
 
-	res := translate(stream, c.Reader, c.EOFWithData)
+	res := get(stream)
 	switch {
 	case res.timedOut:
 		bad("hang/no-return-within-5s", "TransformStreamingResponse did not return within %s on a finite %d-byte stream", returnBudget, len(stream))
@@ -880,7 +892,7 @@ func hostileProbes() []HCase {
 }
 
 func TestC13(t *testing.T) {
-	rec.SetRule("rapid-generated completions = segment lists text|tool (0..4 tools, 14 fixed shapes + free interleavings of up to 7 segments, unicode incl. 4-byte runes / CRLF / SSE look-alikes in text, JSON-object arguments in 3 spellings, 1 in 60 padded to 2 KiB..256 KiB) x finish_reason {stop,length,tool_calls,null,omitted,3 others} x finish placement {own empty-delta chunk, on the last content/tool delta chunk} x usage {absent, finish chunk, trailing choices:[] chunk} rendered to OpenAI SSE (text per rune..single delta; tool head delta + argument fragments cut at any rune) x LF|CRLF x reader pieces (1 byte .. whole) x optional content-free noise lines; non-trivial = >=2 blocks after merging or a tool call whose arguments arrive in >=2 fragments; distinct by (block skeleton, hash of fragment plans + reader plan + line endings + noise + finish/usage placement). Sub-check 'hostile': arbitrary interleavings of tool fragments, id/name split across deltas, mistyped members, raw bytes: termination clause only.")
+	rec.SetRule("rapid-generated completions = segment lists text|tool (0..4 tools, 14 fixed shapes + free interleavings of up to 7 segments, unicode incl. 4-byte runes / CRLF / SSE look-alikes in text, JSON-object arguments in 3 spellings, 1 in 60 padded to 2 KiB..256 KiB) x finish_reason {stop,length,tool_calls,null,omitted,3 others} x finish placement {own empty-delta chunk, on the last content/tool delta chunk} x usage {absent, finish chunk, trailing choices:[] chunk} rendered to OpenAI SSE (text per rune..single delta; tool head delta + argument fragments cut at any rune) x LF|CRLF x reader pieces (1 byte .. whole) x optional content-free noise lines; non-trivial = >=2 blocks after merging or a tool call whose arguments arrive in >=2 fragments; distinct by (block skeleton, hash of fragment plans + reader plan + line endings + noise + finish/usage placement). Sub-check 'e2e': the same completions served by a real backend (bursts of flushed writes with no pause, paced writes, or one write) through the production assembly's /olla/anthropic/v1/messages on both engines, the client's bytes judged by the same oracle. Sub-check 'hostile': arbitrary interleavings of tool fragments, id/name split across deltas, mistyped members, raw bytes: termination clause only.")
 	rec.Assume("argument fragments are cut at rune boundaries (a JSON string delta cannot carry half a rune); fragments of one tool call are contiguous and every tool call starts with a delta carrying id and name, as OpenAI/vLLM/Ollama emit them")
 	rec.Assume("input_tokens is accepted in message_start or in message_delta; when the backend sends no usage nothing is asserted about the numbers except stream/buffered agreement")
 	rec.Assume("for finish_reason absent or outside {stop,length,tool_calls} only membership in Anthropic's stop_reason set and stream/buffered agreement are asserted")
@@ -890,6 +902,9 @@ func TestC13(t *testing.T) {
 		return
 	}
 	if ev.Replay(t, rec, "hostile", runHostile) {
+		return
+	}
+	if ev.Replay(t, rec, "e2e", runE2E) {
 		return
 	}
 	if ev.IsReplay() {
@@ -916,4 +931,5 @@ func TestC13(t *testing.T) {
 	}
 	ev.Check(t, rec, "stream", rec.Pick(7500, 32000), genCase, runCase)
 	ev.Check(t, rec, "hostile", rec.Pick(2000, 8000), genHCase, runHostile)
+	ev.Check(t, rec, "e2e", rec.Pick(300, 4000), genE2E, runE2E)
 }
